@@ -5,7 +5,7 @@
    is history.New + complete Writes + optionally one torn Write (the process died after `keep`
    bytes of that write reached the disk).  Observed: the in-memory list after the complete
    writes of every session, the final bytes of the file, and the list a fresh history.New
-   returns at the end.  Long strings are observed as (length, FNV-1a 32) digests. *)
+   returns at the end.  Long strings are observed as (length, djb2 mod 2^40) digests. *)
 From Murex Require Export Base.Bytes Base.CheckLib Model.History.
 Open Scope N_scope.
 
@@ -28,8 +28,9 @@ Definition session_of (c : csession) : session :=
 Inductive ostr := Lit (b : bytes) | Dig (len : N) (h : N).
 
 Definition lenN (l : bytes) : N := fold_left (fun n _ => N.succ n) l 0.
+(* djb2 on 40 bits: h := (33 h + b) mod 2^40 (cheap in binary N: shift, add, mask) *)
 Definition fnv (l : bytes) : N :=
-  fold_left (fun h b => (N.lxor h b * 16777619) mod 4294967296) l 2166136261.
+  fold_left (fun h b => N.land (N.shiftl h 5 + h + b) 1099511627775) l 5381.
 
 Definition lit_max : N := 600.
 Definition to_obs (b : bytes) : ostr :=
@@ -58,8 +59,14 @@ Definition mk_case (ss : list csession) (r : bytes * list (list bytes)) : case :
 Definition model_case (ss : list csession) : case :=
   mk_case ss (run_sessions [] (map session_of ss)).
 
+(* the time stamps the implementation wrote are of the kind the theorems assume *)
+Definition stamps_ok (ss : list csession) : bool :=
+  forallb (fun s => forallb (fun w => ts_ok (cw_ts w)) (cs_writes s)
+                    && match cs_torn s with Some (w, _) => ts_ok (cw_ts w) | None => true end) ss.
+
 Definition agree (c : case) : bool :=
   let m := model_case (c_sessions c) in
+  stamps_ok (c_sessions c) &&
   list_eqb (list_eqb ostr_eqb) (c_obs_mem m) (c_obs_mem c)
   && ostr_eqb (c_obs_file m) (c_obs_file c)
   && list_eqb ostr_eqb (c_obs_load m) (c_obs_load c).
